@@ -336,12 +336,49 @@ class SubjectAnalysis:
         def into_storage(x):
             t = (x.type or '').replace('const ', '').strip()
             return (t.endswith('*') and t.rstrip('* ').split('::')[-1] == ename) or ('_iterator<' in t and ename in t) or ('iterator' in t.lower() and ename in t and not t.endswith('*') and 'std::' in t)
-        uses = []
+        inits = {}
+        for g_ in [f] + [h for h in self.facts.fns if h.d.get('classfull') == S and h is not f]:
+            for n_ in g_.nodes():
+                if n_.k == 'decl':
+                    for v_ in n_.vars:
+                        if v_.get('init') and v_['init'] in n_.tu.ex: inits[v_['decl']] = Node(n_.tu, v_['init'])
+        def origin(x, depth=0):
+            """'member' if the address / iterator leads into m_observers, 'local' if into a container local to the round (the snapshot)"""
+            while x is not None and x.k in ('cast', 'paren', 'materialize', 'bindtemp') and x.n('sub') is not None: x = x.n('sub')
+            if x is None or depth > 8: return None
+            if x.k == 'member' and x.field:
+                if x.name == OBS: return 'member'
+                return origin(x.n('base'), depth + 1)
+            if x.k == 'ref':
+                t_ = (x.type or x.d.get('decltype') or '').replace('const ', '').strip()
+                if x.dk == 'binding' and x.binding and x.binding in x.tu.ex:
+                    # a member of a snapshot entry: an address kept there was taken when the snapshot was filled, from m_observers
+                    return 'member' if t_.endswith('*') else origin(Node(x.tu, x.binding), depth + 1)
+                if re.match(r'std::(__cxx11::)?(vector|deque|list|forward_list|array)<', t_): return 'local' if x.dk in ('local', 'param') else None
+                if x.decl in inits: return origin(inits[x.decl], depth + 1)
+                return None
+            if x.k == 'unop' and x.op in ('&', '*'): return origin(x.n('sub'), depth + 1)
+            if x.k == 'call':
+                if x.n('object') is not None: return origin(x.n('object'), depth + 1)
+                a_ = [a for a in x.ns('args') if a is not None]
+                return origin(a_[0], depth + 1) if a_ else None
+            if x.k == 'construct':
+                a_ = [a for a in x.ns('args') if a is not None]
+                return origin(a_[0], depth + 1) if a_ else None
+            return None
+        uses = []; unknown_uses = []
         for x in body.walk():
-            if x.k == 'member' and x.field and x.arrow and x.n('base') is not None and into_storage(x.n('base')): uses.append(x)
-            elif x.k == 'unop' and x.op == '*' and x.n('sub') is not None and into_storage(x.n('sub')): uses.append(x)
-            elif x.k == 'call' and x.ck == 'op' and x.op in ('*', '->') and x.ns('args') and x.ns('args')[0] is not None and into_storage(x.ns('args')[0]): uses.append(x)
+            b_ = None
+            if x.k == 'member' and x.field and x.arrow and x.n('base') is not None and into_storage(x.n('base')): b_ = x.n('base')
+            elif x.k == 'unop' and x.op == '*' and x.n('sub') is not None and into_storage(x.n('sub')): b_ = x.n('sub')
+            elif x.k == 'call' and x.ck == 'op' and x.op in ('*', '->') and x.ns('args') and x.ns('args')[0] is not None and into_storage(x.ns('args')[0]): b_ = x.ns('args')[0]
+            if b_ is None: continue
+            o_ = origin(b_)
+            if o_ == 'member': uses.append(x)
+            elif o_ is None: unknown_uses.append(x)
         inst = f'{short}::notify: entries of m_observers read during the delivery stay where they were'
+        if not uses and unknown_uses and kind in ('vector', 'deque', 'basic_string'):
+            self.add('RE.5', None, inst, unknown_uses[0].shortloc(), f'whether `{unknown_uses[0].text()[:40]}` designates an entry of m_observers or of the round\'s own snapshot was not followed'); return
         if not uses:
             self.add('RE.5', True, f'{short}::notify: the delivery loop reads nothing out of m_observers\' own storage (the snapshot holds copies)', deliver.shortloc(), key='RE.5|stable'); return
         if kind in ('forward_list', 'list', 'set', 'map', 'multiset', 'multimap', 'unordered_map', 'unordered_set'):
